@@ -382,6 +382,12 @@ impl<'s, 'd> Gen<'s, 'd> {
             } else {
                 vec![]
             };
+            // a record with one constructor and labelled fields may be written without naming
+            // the constructor (`pub type R { x: Int }`); the printer uses that form when the
+            // constructor is called like the type
+            if ctors.len() == 1 && !ctors[0].fields.is_empty() && ctors[0].fields.iter().all(|f| f.0.is_some()) && self.src.chance(1, 2) {
+                ctors[0].name = name.clone();
+            }
             self.m.adts.push(AdtDecl { name, params, ctors, opaque: false, public: true, tags });
         }
     }
